@@ -57,6 +57,18 @@ CHECKS = {
          'schedules: trajectory rows, sd columns down/VD exactly zero; 2D Position/NedVelocity return 2-row z/H/R. Exploration.',
     note='Bitwise comparisons, NUMBA_BOUNDSCHECK=1.',
     design='DESIGN.md section 4, C13'),
+ 'C05': dict(
+    technique='property-based metamorphic testing with an order-of-residual (bound-form ladder) oracle; exact-equality predicates for the 2D mode',
+    text='Generated PVA x error direction x magnitude ladder {1..1/256} x mode: left-inverse identity; the state change produced by correct_pva (measured with own geodesy and with compute_state_difference) minus transform_to_output@x '
+         'must stay below B s^2 + floor on every rung (a first-order coefficient error of relative size >~1e-5..1e-3 breaks the smallest rung); perturb-then-correct restores the state to second order; 2D rows exactly zero, alt/VD bit-unchanged. Exploration.',
+    note='B is the analytic second-order bound with factor 4..6; floors 64..256 ulp; own geodesy and Euler algebra trusted (self-tested).',
+    design='DESIGN.md section 4, C05'),
+ 'C06': dict(
+    technique='property-based differential testing: H against central differences of the residual under the library correction convention; residual against own geodesy/DCM; simulator round trip with injected error',
+    text='Generated PVA x rates x lever arm x class x mode x measured value: z equals predicted minus measured in documented units (own geodesy), H equals dz/dx along all 9/7 error states incl. lever-arm and rate terms (two-rung central differences), '
+         'R = sd^2 I with matching shapes, None at absent times, noise-free simulated measurement gives 0 and an injected error e gives -e. Exploration.',
+    note='Central-difference tolerance 2e-5*(1+|V|+|l|(1+|w|)) plus the second-order meridian-convergence coupling |z| tan(lat)/R for Position.',
+    design='DESIGN.md section 4, C06'),
 }
 NOT_YET = 'check not built yet in this session (planned, see DESIGN.md section 8); not claimed until its check exists'
 
